@@ -354,6 +354,15 @@ class extract_visitor(NodeVisitor):
         if type(node.ctx) is Load:
             node.flow = self.flow  # type: ignore[attr-defined]
 
+    def visit_IfExp(self, node):
+        # type: (ast.IfExp) -> None
+        # the test is evaluated first: y if (y := f()) else 0
+        comp, self.comp = getattr(self, 'comp', None), node
+        self.visit(node.test)
+        self.comp = comp
+        self.visit(node.body)
+        self.visit(node.orelse)
+
     def visit_NamedExpr(self, node):
         # type: (ast.NamedExpr) -> None
         if getattr(self, 'comp', None):
